@@ -49,8 +49,21 @@ func (pub Pubkey) Serialize() []byte {
 }
 
 func (pub *Pubkey) Deserialize(b []byte) error {
-	_, error := pub.value.Unmarshal(b)
-	return error
+	return pub.unmarshalExact(b)
+}
+
+// unmarshalExact accepts exactly one canonical point encoding: a parse error
+// or trailing bytes leave the key empty, so that nothing verifies under it.
+func (pub *Pubkey) unmarshalExact(b []byte) error {
+	rest, err := pub.value.Unmarshal(b)
+	if err == nil && len(rest) != 0 {
+		err = fmt.Errorf("pubkey Deserialized failed: %d trailing bytes", len(rest))
+	}
+	if err != nil {
+		pub.value = bn_curve.G2{}
+		return err
+	}
+	return nil
 }
 
 func (pub Pubkey) GetHexString() string {
@@ -63,8 +76,7 @@ func (pub *Pubkey) SetHexString(s string) error {
 	}
 	buf := s[len(PREFIX):]
 
-	pub.value.Unmarshal(common.Hex2Bytes(buf))
-	return nil
+	return pub.unmarshalExact(common.Hex2Bytes(buf))
 }
 
 func (pub Pubkey) IsEmpty() bool {
